@@ -1,14 +1,614 @@
-import SamVerif.Model.EnumLayout
-import SamVerif.Model.TailRec
-/-! # C01 — property theorems (work in progress) -/
+import SamVerif.Lemmas.EnumLayout
+import SamVerif.Lemmas.TailRec
+/-!
+# C01 — compiled code behaves as the source semantics prescribe: property theorems
+
+K1 (enum variant representation, `mir_generics_specialization.rs:580-667`, encoding l.313-361,
+tests l.98-260):
+* `encode_injective_partial`, `testVariant_exact_partial` — for every declaration, every decision
+  function and all values: encoding is injective and the lowered match's tests recover exactly the
+  variant and its fields, *provided* the payload of an unboxed variant is a heap object of its type
+  (`FitsVal.payload`);
+* `typePermit_sound_finished` — the real decision guarantees that proviso for every finished type;
+* `typePermit_unsound_in_progress_counterexample`, `layout_injective_counterexample`,
+  `decode_counterexample` — it does not for a type still in progress: `Nat(Z, S(Nat))` (finding C01-F1).
+
+K3 (tail recursion → loop, `mir_tail_recursion_rewrite.rs`, loop update `wasm_lowering.rs:437-441`):
+* `tailrec_equiv_par` (full strength, parallel update), `tailrec_equiv_seq_partial` (the code as
+  run; side condition `safeArgs`), `tailrec_equiv_seq_counterexample` (swap; finding C01-F2),
+  `seqAssign_eq_par_partial`.
+
+K4 (constant-parameter elimination decision, `mir_constant_param_elimination.rs`):
+* `meet_comm`, `meet_assoc`, `meet_idem`, `paramState_c32_sound`, `paramState_unused_sound`,
+  `mem_selfCallReads`.
+-/
 namespace SamVerif.C01
 open SamVerif.EnumLayout
 
-/-- State in which `Nat(Z, S(Nat))` (closed type 0) is laid out: its name is registered, its
-definition is not finished. -/
-def natInProgress : St := { names := [0] }
 
-theorem nat_layout : layoutOf (typePermit natInProgress) [[], [.ref 0]] = [.int31, .unboxed 0] := by
-  decide
+/-- A source-level enum value `(tag, fields)` fits the declaration, and — the side condition that
+the unboxing decision is supposed to guarantee — the payload of an unboxed variant really is a
+heap object of the payload type. -/
+structure FitsVal (variants : List (List Ty)) (rs : List VRepr) (tag : Nat) (fs : List RtVal) : Prop where
+  arity : ∃ ts, variants[tag]? = some ts ∧ fs.length = ts.length
+  payload : ∀ (t : Nat) (w : RtVal), rs[tag]? = some (.unboxed t) → fs = [w] → isPointerOf t w = true
+
+theorem single_of_head {α} (fs : List α) (v : α) (ts : List Ty) (t : Ty)
+    (hl : fs.length = ts.length) (ht : ts = [t]) (hh : fs.head? = some v) : fs = [v] := by
+  subst ht
+  match fs, hl, hh with
+  | [x], _, hh => simpa using hh
+
+theorem encode_injective_partial (p : Ty → Bool) (variants : List (List Ty)) (n : Nat)
+    (t1 t2 : Nat) (fs1 fs2 : List RtVal) (v : RtVal)
+    (h1 : FitsVal variants (layoutOf p variants) t1 fs1)
+    (h2 : FitsVal variants (layoutOf p variants) t2 fs2)
+    (e1 : encode n (layoutOf p variants) t1 fs1 = some v)
+    (e2 : encode n (layoutOf p variants) t2 fs2 = some v) :
+    t1 = t2 ∧ fs1 = fs2 := by
+  have inv := layoutOf_inv p variants
+  obtain ⟨len, i31, unb, box, pend, perm⟩ := inv
+  obtain ⟨⟨ts1, hv1, ha1⟩, hp1⟩ := h1
+  obtain ⟨⟨ts2, hv2, ha2⟩, hp2⟩ := h2
+  unfold layoutOf at *
+  unfold encode at e1 e2
+  generalize hrs : (layoutLoop p variants 0 {}).out = rs at *
+  cases hr1 : rs[t1]? with
+  | none => simp [hr1] at e1
+  | some r1 =>
+    cases hr2 : rs[t2]? with
+    | none => simp [hr2] at e2
+    | some r2 =>
+      simp only [hr1, hr2] at e1 e2
+      cases r1 with
+      | int31 =>
+        cases r2 with
+        | int31 =>
+          have := i31 t1 hr1; have := i31 t2 hr2
+          simp at e1 e2
+          subst e1
+          have : (t1 : Int) = (t2 : Int) := by grind
+          have : t1 = t2 := by omega
+          subst this
+          grind
+        | unboxed u =>
+          simp at e1 e2
+          have hu := unb t2 u hr2
+          have hts : ts2 = [.ref u] := by grind
+          have hf := single_of_head fs2 v ts2 _ ha2 hts e2
+          have := hp2 u v hr2 hf
+          subst e1
+          simp [isPointerOf] at this
+        | boxed bs => simp at e1 e2; grind
+      | unboxed u1 =>
+        have hu1 := unb t1 u1 hr1
+        cases r2 with
+        | int31 =>
+          simp at e1 e2
+          have hts : ts1 = [.ref u1] := by grind
+          have hf := single_of_head fs1 v ts1 _ ha1 hts e1
+          have := hp1 u1 v hr1 hf
+          subst e2
+          simp [isPointerOf] at this
+        | unboxed u2 =>
+          have hu2 := unb t2 u2 hr2
+          simp at e1 e2
+          have : t1 = t2 := by
+            by_cases h : t1 = t2
+            · exact h
+            · have := hu1.2.2.2 t2 (Ne.symm h) (by grind)
+              grind
+          subst this
+          have hts : ts1 = [.ref u1] := by grind
+          have hts2 : ts2 = [.ref u1] := by grind
+          have hf1 := single_of_head fs1 v ts1 _ ha1 hts e1
+          have hf2 := single_of_head fs2 v ts2 _ ha2 hts2 e2
+          grind
+        | boxed bs =>
+          exfalso
+          have : t2 ≠ t1 := by grind
+          have := hu1.2.2.2 t2 this (by grind)
+          grind
+      | boxed bs1 =>
+        cases r2 with
+        | int31 => simp at e1 e2; grind
+        | unboxed u2 =>
+          exfalso
+          have hu2 := unb t2 u2 hr2
+          have : t1 ≠ t2 := by grind
+          have := hu2.2.2.2 t1 this (by grind)
+          grind
+        | boxed bs2 =>
+          simp at e1 e2
+          subst e1
+          simp at e2
+          grind
+
+/-- `decodeByTests ∘ encode = id`, pointwise: on an encoded value the test sequence of the lowered
+match succeeds for exactly the variant it was built from, and binds exactly its fields. -/
+theorem testVariant_exact_partial (p : Ty → Bool) (variants : List (List Ty)) (n : Nat)
+    (tag tag' : Nat) (fs : List RtVal) (v : RtVal)
+    (h : FitsVal variants (layoutOf p variants) tag fs)
+    (e : encode n (layoutOf p variants) tag fs = some v) (ht : tag' < variants.length) :
+    testVariant n (layoutOf p variants) tag' v = if tag' = tag then some fs else none := by
+  have inv := layoutOf_inv p variants
+  obtain ⟨len, i31, unb, box, pend, perm⟩ := inv
+  obtain ⟨⟨ts, hv, ha⟩, hp⟩ := h
+  unfold layoutOf at *
+  unfold encode at e
+  unfold testVariant
+  generalize hrs : (layoutLoop p variants 0 {}).out = rs at *
+  cases hr : rs[tag]? with
+  | none => simp [hr] at e
+  | some r =>
+    cases hr' : rs[tag']? with
+    | none => exfalso; grind
+    | some r' =>
+      simp only [hr] at e
+      cases r with
+      | int31 =>
+        have hts := i31 tag hr
+        have hfs : fs = [] := by
+          have : ts = [] := by grind
+          subst this
+          simpa using ha
+        simp at e
+        subst e
+        cases r' with
+        | int31 =>
+          simp only []
+          by_cases hq : tag' = tag
+          · subst hq; simp [hfs]
+          · have : (tag : Int) ≠ (tag' : Int) := by omega
+            simp [hq, this]
+        | unboxed u' =>
+          have : tag' ≠ tag := by grind
+          simp [isPointerOf, this]
+        | boxed bs =>
+          have : tag' ≠ tag := by grind
+          have hi : hasInt31 rs = true := by
+            unfold hasInt31
+            simp only [List.any_eq_true]
+            exact ⟨.int31, List.mem_of_getElem? hr, by simp⟩
+          simp [hi, isVariantObj, this]
+      | unboxed u =>
+        have hu := unb tag u hr
+        have hts : ts = [.ref u] := by grind
+        have hf := single_of_head fs v ts _ ha hts e
+        have hptr := hp u v hr hf
+        by_cases hq : tag' = tag
+        · subst hq
+          have : r' = .unboxed u := by grind
+          subst this
+          simp [hptr, hf]
+        · have h31 := hu.2.2.2 tag' hq ht
+          have : r' = .int31 := by grind
+          subst this
+          simp only [hq, if_false]
+          cases v with
+          | i32 k => rfl
+          | i31 k => simp [isPointerOf] at hptr
+          | obj ty fl => rfl
+      | boxed bs =>
+        simp at e
+        subst e
+        cases r' with
+        | int31 =>
+          have : tag' ≠ tag := by grind
+          simp [this]
+        | unboxed u' =>
+          exfalso
+          have hu := unb tag' u' hr'
+          have : tag ≠ tag' := by grind
+          have := hu.2.2.2 tag this (by grind)
+          grind
+        | boxed bs' =>
+          by_cases hq : tag' = tag
+          · subst hq
+            simp [isVariantObj]
+          · have : (2 * (tag : Int) + 1) ≠ (2 * (tag' : Int) + 1) := by omega
+            have hq' : ¬ tag = tag' := fun h => hq h.symm
+            simp [isVariantObj, hq, hq', this]
+
+/-- Values of the closed type `n` under the finished definitions `defs`. -/
+inductive HasTy (defs : List (Nat × MDef)) : Nat → RtVal → Prop where
+  | struct (n k : Nat) (fs : List RtVal) :
+      lookupDef defs n = some (.struct k) → HasTy defs n (.obj (.struct n) fs)
+  | int31 (n : Nat) (rs : List VRepr) (tag : Nat) :
+      lookupDef defs n = some (.enum rs) → rs[tag]? = some .int31 → HasTy defs n (.i31 tag)
+  | boxed (n : Nat) (rs : List VRepr) (tag : Nat) (ts : List Ty) (fs : List RtVal) :
+      lookupDef defs n = some (.enum rs) → rs[tag]? = some (.boxed ts) →
+      HasTy defs n (.obj (.variant n tag) (.i32 (2 * tag + 1) :: fs))
+  | unboxed (n : Nat) (rs : List VRepr) (tag t : Nat) (w : RtVal) :
+      lookupDef defs n = some (.enum rs) → rs[tag]? = some (.unboxed t) → HasTy defs t w →
+      HasTy defs n w
+
+/-- `type_permit_enum_boxed_optimization` is right about every *finished* type: if it permits
+unboxing a payload of type `n` whose definition is finished, every value of that type is a heap
+object of that type. (With `encode_injective_partial`: layouts chosen from finished payload types
+never conflate values.) -/
+theorem typePermit_sound_finished (st : St) (n : Nat) (v : RtVal)
+    (hp : typePermit st (.ref n) = true)
+    (hv : HasTy st.defs n v) : isPointerOf n v = true := by
+  match hv with
+  | .struct _ k fs h => simp [isPointerOf]
+  | .int31 _ rs tag h hr =>
+    simp only [typePermit, h] at hp
+    have := (List.all_eq_true.mp hp) _ (List.mem_of_getElem? hr)
+    simp [VRepr.isBoxed] at this
+  | .boxed _ rs tag ts fs h hr => simp [isPointerOf]
+  | .unboxed _ rs tag t w h hr hw =>
+    simp only [typePermit, h] at hp
+    have := (List.all_eq_true.mp hp) _ (List.mem_of_getElem? hr)
+    simp [VRepr.isBoxed] at this
+
+/-- State in which `class Nat(Z, S(Nat))` (closed type 0) is laid out: its name is registered
+(l.573-574), its definition is not finished. -/
+def natInProgress : St := { names := [0] }
+def natLayout : List VRepr := layoutOf (typePermit natInProgress) [[], [.ref 0]]
+def natDefs : List (Nat × MDef) := [(0, .enum natLayout)]
+
+theorem nat_layout : natLayout = [.int31, .unboxed 0] := by decide
+
+/-- The decision is wrong for a type that is still in progress: it answers "always a pointer" for
+`Nat` while `Z` is an `i31`. -/
+theorem typePermit_unsound_in_progress_counterexample :
+    typePermit natInProgress (.ref 0) = true ∧ HasTy natDefs 0 (.i31 0) ∧
+      isPointerOf 0 (.i31 0) = false := by
+  refine ⟨by decide, ?_, by decide⟩
+  exact HasTy.int31 0 natLayout 0 (by decide) (by decide)
+
+/-- Full-strength statement (false on the unchanged code):
+    `∀ variants st n t1 fs1 t2 fs2 v` with field values of the declared types,
+    `encode n (layoutOf (typePermit st) variants) t1 fs1 = some v →
+     encode n (layoutOf (typePermit st) variants) t2 fs2 = some v → t1 = t2 ∧ fs1 = fs2`.
+Witness: `Nat(Z, S(Nat))`: `S(Z)` and `Z` are both `i31 0` (P1; replayed: prints 0 instead of 2). -/
+theorem layout_injective_counterexample :
+    ∃ (st : St) (variants : List (List Ty)) (n t1 t2 : Nat) (fs1 fs2 : List RtVal) (v : RtVal),
+      let rs := layoutOf (typePermit st) variants
+      HasTy [(n, .enum rs)] n v ∧ (∀ w ∈ fs2, HasTy [(n, .enum rs)] n w) ∧
+      encode n rs t1 fs1 = some v ∧ encode n rs t2 fs2 = some v ∧ t1 ≠ t2 := by
+  refine ⟨natInProgress, [[], [.ref 0]], 0, 0, 1, [], [.i31 0], .i31 0, ?_, ?_, by rfl, by rfl, by decide⟩
+  · exact HasTy.int31 0 natLayout 0 (by decide) (by decide)
+  · intro w hw
+    simp at hw
+    subst hw
+    exact HasTy.int31 0 natLayout 0 (by decide) (by decide)
+
+/-- and the lowered `match` takes `S(Z)` for `Z`. -/
+theorem decode_counterexample :
+    decodeByTests 0 natLayout ((encode 0 natLayout 1 [.i31 0]).getD (.i32 0)) = some (0, []) := by
+  rfl
+
+
+end SamVerif.C01
+
+namespace SamVerif.C01
+open SamVerif.TailRec
+open SamVerif.Opt (Op evalTarget)
+
+/-- Sequential loop-variable update equals the parallel one under the side condition. -/
+theorem seqAssign_eq_par_partial (params : List Name) (args : List Expr) (env : Env)
+    (hnd : params.Nodup) (hl : args.length = params.length) (hs : noBackwardRef params args = true) :
+    params.map (seqAssign env (params.zip args)) = args.map (Expr.eval env) :=
+  seqAssign_eq_par params args env hnd hl hs
+
+/-- … and differs without it: `a, b := b, a`. -/
+theorem seqAssign_eq_par_counterexample :
+    ∃ (params : List Name) (args : List Expr) (env : Env), params.Nodup ∧ args.length = params.length ∧
+      params.map (seqAssign env (params.zip args)) ≠ args.map (Expr.eval env) :=
+  ⟨[0, 1], [.var 1, .var 0], fun x => if x = 0 then 1 else 2, by decide, by decide, by decide⟩
+
+
+theorem walk_next_safe (ev : Op → Int → Int → Option Int) (params : List Name) (l : LBody) :
+    ∀ (env env' : Env) (args : List Expr), safeArgs params l = true →
+      walkLoop ev env l = some (.next env' args) →
+      noBackwardRef params args = true ∧ args.length = params.length := by
+  induction l with
+  | done a =>
+    intro env env' args hs hw
+    simp [walkLoop] at hw
+    simp [safeArgs] at hs
+    obtain ⟨_, rfl⟩ := hw
+    exact hs
+  | bin x op e1 e2 k ih =>
+    intro env env' args hs hw
+    simp only [walkLoop] at hw
+    split at hw
+    · simp at hw
+    · exact ih _ _ _ (by simpa [safeArgs] using hs) hw
+  | sif c inv v k ih =>
+    intro env env' args hs hw
+    simp only [walkLoop] at hw
+    split at hw
+    · split at hw <;> simp at hw
+    · exact ih _ _ _ (by simpa [safeArgs] using hs) hw
+  | merge c t e _ _ =>
+    intro env env' args hs hw
+    simp only [walkLoop] at hw
+    split at hw <;> simp at hw
+
+/-- **tailrec_equiv under parallel update (full strength).** With all loop values read before any
+loop variable is written, the rewritten loop computes what the recursion computes — for every tree,
+all arguments and every fuel. -/
+theorem tailrec_equiv_par (ev : Op → Int → Int → Option Int) (params : List Name) (b : Body) (l : LBody)
+    (h : rw b = some l) :
+    ∀ (fuel : Nat) (vals : List Int), runRec ev params b fuel vals = runLoop ev false params l fuel vals := by
+  intro fuel
+  induction fuel with
+  | zero => intro vals; rfl
+  | succ n ih =>
+    intro vals
+    simp only [runRec, runLoop]
+    have r := walk_rel ev b l (bindParams params vals) h
+    revert r
+    generalize walkRec ev (bindParams params vals) b = a
+    generalize walkLoop ev (bindParams params vals) l = c
+    intro r
+    cases r with
+    | trap => rfl
+    | value v => rfl
+    | vals vs => exact ih vs
+    | exprs env' args => simpa using ih _
+
+/-- **tailrec_equiv for the code as the backends run it (partial).** Side condition: parameters
+are distinct and every loop-value list that is used directly (`safeArgs`) reads no parameter that an
+earlier loop-variable assignment has overwritten. -/
+theorem tailrec_equiv_seq_partial (ev : Op → Int → Int → Option Int) (params : List Name) (b : Body)
+    (l : LBody) (h : rw b = some l) (hnd : params.Nodup) (hs : safeArgs params l = true) :
+    ∀ (fuel : Nat) (vals : List Int), runRec ev params b fuel vals = runLoop ev true params l fuel vals := by
+  intro fuel
+  induction fuel with
+  | zero => intro vals; rfl
+  | succ n ih =>
+    intro vals
+    simp only [runRec, runLoop]
+    have r := walk_rel ev b l (bindParams params vals) h
+    have sf := walk_next_safe ev params l (bindParams params vals)
+    revert r sf
+    generalize walkRec ev (bindParams params vals) b = a
+    generalize walkLoop ev (bindParams params vals) l = c
+    intro r sf
+    cases r with
+    | trap => rfl
+    | value v => rfl
+    | vals vs => exact ih vs
+    | exprs env' args =>
+      obtain ⟨h1, h2⟩ := sf env' args hs rfl
+      simp only [if_true]
+      rw [seqAssign_eq_par params args env' hnd h2 h1]
+      exact ih _
+
+/-- `swap(a, b, n) = if n == 0 { a * 10 + b } else { swap(b, a, n - 1) }` -/
+def swapBody : Body :=
+  .bin 10 .eq (.var 2) (.lit 0)
+    (.ite (.var 10)
+      (.bin 11 .mul (.var 0) (.lit 10) (.bin 12 .add (.var 11) (.var 1) (.ret (.var 12))))
+      (.bin 13 .sub (.var 2) (.lit 1) (.tail [.var 1, .var 0, .var 13])))
+
+def swapLoop : LBody :=
+  .bin 10 .eq (.var 2) (.lit 0)
+    (.sif (.var 10) false
+      (.bin 11 .mul (.var 0) (.lit 10) (.bin 12 .add (.var 11) (.var 1) (.ret (.var 12))))
+      (.bin 13 .sub (.var 2) (.lit 1) (.done [.var 1, .var 0, .var 13])))
+
+theorem swap_rw : rw swapBody = some swapLoop := by rfl
+
+/-- Full-strength statement (false on the unchanged code):
+    `∀ ev params b l, rw b = some l → params.Nodup → ∀ fuel vals,
+       runRec ev params b fuel vals = runLoop ev true params l fuel vals`.
+Witness: `swap(1, 2, 1)` is 21, the loop returns 22 (replayed on the real compiler: `swap(1, 2, 1001)`
+prints 22 on wasm and TS). -/
+theorem tailrec_equiv_seq_counterexample :
+    ∃ (params : List Name) (b : Body) (l : LBody) (fuel : Nat) (vals : List Int),
+      rw b = some l ∧ params.Nodup ∧
+      runRec evalTarget params b fuel vals = some 21 ∧
+      runLoop evalTarget true params l fuel vals = some 22 :=
+  ⟨[0, 1, 2], swapBody, swapLoop, 5, [1, 2, 1], by rfl, by decide, by decide, by decide⟩
+
+
+
+
+theorem meet_comm (a b : PState) : meet a b = meet b a := by
+  cases a <;> cases b <;> simp [meet] <;> grind
+
+theorem meet_idem (a : PState) : meet a a = a := by
+  cases a <;> simp [meet]
+
+theorem meet_assoc (a b c : PState) : meet (meet a b) c = meet a (meet b c) := by
+  cases a <;> cases b <;> cases c <;> simp [meet] <;> grind [meet]
+
+theorem meet_unused (a b : PState) : meet a b = .unused → a = .unused ∨ b = .unused := by
+  cases a <;> cases b <;> simp [meet] <;> grind
+
+theorem meet_c32 (a b : PState) (n : Int) : meet a b = .c32 n →
+    (a = .c32 n ∨ a = .referenced) ∧ (b = .c32 n ∨ b = .referenced) := by
+  cases a <;> cases b <;> simp [meet] <;> grind
+
+theorem meet_referenced (a b : PState) : meet a b = .referenced → a = .referenced ∧ b = .referenced := by
+  cases a <;> cases b <;> simp [meet] <;> grind
+
+theorem argState_ne (a : Arg) : argState a ≠ .unused ∧ argState a ≠ .referenced := by
+  cases a <;> simp [argState]
+
+theorem fold_unused (i : Nat) (sites : List (List Arg)) : ∀ (s : PState),
+    sites.foldl (fun s args => match args[i]? with | some a => meet s (argState a) | none => s) s = .unused →
+    s = .unused := by
+  induction sites with
+  | nil => intro s h; simpa using h
+  | cons args rest ih =>
+    intro s h
+    simp only [List.foldl_cons] at h
+    have := ih _ h
+    cases ha : args[i]? with
+    | none => simpa [ha] using this
+    | some a =>
+      simp only [ha] at this
+      cases meet_unused _ _ this with
+      | inl h => exact h
+      | inr h => exact absurd h (argState_ne a).1
+
+theorem fold_c32 (i : Nat) (n : Int) (sites : List (List Arg)) : ∀ (s : PState),
+    sites.foldl (fun s args => match args[i]? with | some a => meet s (argState a) | none => s) s = .c32 n →
+    (s = .c32 n ∨ s = .referenced) ∧ ∀ args ∈ sites, ∀ a, args[i]? = some a → a = .i32 n := by
+  induction sites with
+  | nil => intro s h; simp at h; simp [h]
+  | cons args rest ih =>
+    intro s h
+    simp only [List.foldl_cons] at h
+    have := ih _ h
+    cases ha : args[i]? with
+    | none =>
+      simp only [ha] at this
+      refine ⟨this.1, ?_⟩
+      intro args' hm a' ha'
+      cases List.mem_cons.mp hm with
+      | inl h => subst h; simp [ha] at ha'
+      | inr h => exact this.2 _ h _ ha'
+    | some a =>
+      simp only [ha] at this
+      obtain ⟨h1, h2⟩ := this
+      have hm : meet s (argState a) = .c32 n := by
+        cases h1 with
+        | inl h => exact h
+        | inr h => exact absurd (meet_referenced _ _ h).2 (argState_ne a).2
+      have hk := meet_c32 _ _ _ hm
+      refine ⟨hk.1, ?_⟩
+      intro args' hmem a' ha'
+      cases List.mem_cons.mp hmem with
+      | inl h =>
+        subst h
+        rw [ha] at ha'
+        cases ha'
+        cases hk.2 with
+        | inl h => cases a <;> simp [argState] at h; subst h; rfl
+        | inr h => exact absurd h (argState_ne a).2
+      | inr h => exact h2 _ h _ ha'
+
+/-- **Constant decision is sound**: a parameter is replaced by the constant `n` only if the body
+reads it and *every* direct call site of the function passes the literal `n` in that position. -/
+theorem paramState_c32_sound (prog : List Fn) (f : Fn) (i : Nat) (p : Name) (n : Int)
+    (h : paramState prog f i p = .c32 n) :
+    localState f p = .referenced ∧
+      ∀ args ∈ callSites prog f.name, ∀ a, args[i]? = some a → a = .i32 n := by
+  have := fold_c32 i n (callSites prog f.name) (localState f p) h
+  refine ⟨?_, this.2⟩
+  cases this.1 with
+  | inl h1 => unfold localState at h1; split at h1 <;> simp at h1
+  | inr h1 => exact h1
+
+/-- **Unused decision is sound**: a parameter is dropped as unused only if nothing in the body
+reads it except self calls that copy it to its own position. -/
+theorem paramState_unused_sound (prog : List Fn) (f : Fn) (i : Nat) (p : Name)
+    (h : paramState prog f i p = .unused) : p ∉ localReads f := by
+  have := fold_unused i (callSites prog f.name) (localState f p) h
+  unfold localState at this
+  split at this
+  · simp at this
+  · simpa using ‹¬ (localReads f).contains p = true›
+
+/-- The self-call exemption (l.94-104), stated independently: a name counts as read by a self call
+iff it is passed in some position that is not its own. -/
+theorem mem_selfCallReads (params : List Name) : ∀ (args : List Arg) (x : Name),
+    x ∈ selfCallReads params args ↔ ∃ j : Nat, args[j]? = some (Arg.var x) ∧ params[j]? ≠ some x := by
+  induction params with
+  | nil =>
+    intro args x
+    cases args with
+    | nil => simp [selfCallReads]
+    | cons a rest =>
+      simp only [selfCallReads, List.mem_filterMap]
+      constructor
+      · rintro ⟨b, hb, h⟩
+        cases b <;> simp at h
+        subst h
+        obtain ⟨j, hj⟩ := List.getElem?_of_mem hb
+        exact ⟨j, hj, by simp⟩
+      · rintro ⟨j, h1, _⟩
+        exact ⟨Arg.var x, List.mem_of_getElem? h1, rfl⟩
+  | cons p ps ih =>
+    intro args x
+    cases args with
+    | nil => simp [selfCallReads]
+    | cons a rest =>
+      have shift : (∃ j : Nat, rest[j]? = some (Arg.var x) ∧ ps[j]? ≠ some x) →
+          ∃ j : Nat, (a :: rest)[j]? = some (Arg.var x) ∧ (p :: ps)[j]? ≠ some x := by
+        rintro ⟨j, h1, h2⟩
+        exact ⟨j + 1, by simpa using h1, by simpa using h2⟩
+      have unshift : ∀ j : Nat, (a :: rest)[j + 1]? = some (Arg.var x) → (p :: ps)[j + 1]? ≠ some x →
+          ∃ j : Nat, rest[j]? = some (Arg.var x) ∧ ps[j]? ≠ some x := by
+        intro j h1 h2
+        exact ⟨j, by simpa using h1, by simpa using h2⟩
+      cases a with
+      | var y =>
+        by_cases hy : y = p
+        · subst hy
+          simp only [selfCallReads, if_true, ih]
+          constructor
+          · exact shift
+          · rintro ⟨j, h1, h2⟩
+            cases j with
+            | zero => simp at h1 h2; exact absurd h1 h2
+            | succ j => exact unshift j h1 h2
+        · simp only [selfCallReads, hy, if_false, List.mem_cons, ih]
+          constructor
+          · rintro (h1 | h)
+            · subst h1
+              exact ⟨0, by simp, by simpa using fun h' => hy h'.symm⟩
+            · exact shift h
+          · rintro ⟨j, h1, h2⟩
+            cases j with
+            | zero => simp at h1; left; exact h1.symm
+            | succ j => right; exact unshift j h1 h2
+      | i32 n =>
+        simp only [selfCallReads, ih]
+        constructor
+        · exact shift
+        · rintro ⟨j, h1, h2⟩
+          cases j with
+          | zero => simp at h1
+          | succ j => exact unshift j h1 h2
+      | i31 n =>
+        simp only [selfCallReads, ih]
+        constructor
+        · exact shift
+        · rintro ⟨j, h1, h2⟩
+          cases j with
+          | zero => simp at h1
+          | succ j => exact unshift j h1 h2
+      | str n =>
+        simp only [selfCallReads, ih]
+        constructor
+        · exact shift
+        · rintro ⟨j, h1, h2⟩
+          cases j with
+          | zero => simp at h1
+          | succ j => exact unshift j h1 h2
+
+
+/-! ## Non-vacuity -/
+section
+open SamVerif.EnumLayout
+
+-- the side conditions are satisfiable and the theorems say something on real shapes:
+-- `Opt<P>` with `P` a finished struct is laid out `[Int31, Unboxed P]` and is injective
+example : layoutOf (typePermit { names := [1, 0], defs := [(1, .struct 1)] }) [[], [.ref 1]]
+    = [.int31, .unboxed 1] := by decide
+example : typePermit { names := [1, 0], defs := [(1, .struct 1)] } (.ref 1) = true := by decide
+-- `Opt<Opt<P>>`: the payload has an Int31 variant, so it is boxed
+example : layoutOf (typePermit { names := [2, 1, 0], defs := [(1, .enum [.int31, .unboxed 0]), (0, .struct 1)] })
+    [[], [.ref 1]] = [.int31, .boxed [.int, .ref 1]] := by decide
+example : FitsVal [[], [.ref 1]] [.int31, .unboxed 1] 1 [.obj (.struct 1) [.i32 5]] :=
+  ⟨⟨[.ref 1], rfl, rfl⟩, by intro t w h1 h2; simp at h1 h2; subst h1; subst h2; rfl⟩
+end
+-- an accumulator loop satisfies `safeArgs`; the swap does not
+example : safeArgs [0, 1, 2] (.done [.var 0, .var 2, .var 2]) = true := by decide
+example : safeArgs [0, 1, 2] swapLoop = false := by decide
+example : [0, 1, 2].Nodup := by decide
+example : runRec evalTarget [0, 1, 2] swapBody 5 [1, 2, 2] = some 12 := by decide
+-- rotation f(n, a, b) -> f(n - 1, b, a): both parameters are read (seeded fault C01: they must be kept)
+example : selfCallReads [0, 1, 2] [.var 9, .var 2, .var 1] = [9, 2, 1] := by decide
+example : selfCallReads [0, 1, 2] [.var 9, .var 1, .var 2] = [9] := by decide
+example : meet .referenced (.c32 5) = .c32 5 := by decide
 
 end SamVerif.C01
